@@ -37,6 +37,19 @@ pub mod proto {
     pub struct Library { pub domain: String, pub units: i32, pub cells: Vec<Cell> }
     #[derive(Debug, Clone, Copy)]
     pub enum Units { Micro = 0, Nano = 1, Angstrom = 2 }
+    // prost messages derive Clone: a clone is equal to its original
+    impl Clone for Rectangle { #[verifier::external_body] fn clone(&self) -> (r: Self) ensures r == *self { unimplemented!() } }
+    impl Clone for Polygon { #[verifier::external_body] fn clone(&self) -> (r: Self) ensures r == *self { unimplemented!() } }
+    impl Clone for Path { #[verifier::external_body] fn clone(&self) -> (r: Self) ensures r == *self { unimplemented!() } }
+    impl Clone for TextElement { #[verifier::external_body] fn clone(&self) -> (r: Self) ensures r == *self { unimplemented!() } }
+    impl Clone for Instance { #[verifier::external_body] fn clone(&self) -> (r: Self) ensures r == *self { unimplemented!() } }
+    impl Clone for Layer { #[verifier::external_body] fn clone(&self) -> (r: Self) ensures r == *self { unimplemented!() } }
+    impl Clone for LayerShapes { #[verifier::external_body] fn clone(&self) -> (r: Self) ensures r == *self { unimplemented!() } }
+    impl Clone for Layout { #[verifier::external_body] fn clone(&self) -> (r: Self) ensures r == *self { unimplemented!() } }
+    impl Clone for AbstractPort { #[verifier::external_body] fn clone(&self) -> (r: Self) ensures r == *self { unimplemented!() } }
+    impl Clone for Abstract { #[verifier::external_body] fn clone(&self) -> (r: Self) ensures r == *self { unimplemented!() } }
+    impl Clone for Cell { #[verifier::external_body] fn clone(&self) -> (r: Self) ensures r == *self { unimplemented!() } }
+    impl Clone for Library { #[verifier::external_body] fn clone(&self) -> (r: Self) ensures r == *self { unimplemented!() } }
     impl Default for AbstractPort { fn default() -> (r: Self) ensures r.net@.len() == 0, r.shapes@.len() == 0 { AbstractPort { net: String::new(), shapes: Vec::new() } } }
     impl Default for Abstract { fn default() -> (r: Self) ensures r.name@.len() == 0, r.outline is None, r.ports@.len() == 0, r.blockages@.len() == 0 { Abstract { name: String::new(), outline: None, ports: Vec::new(), blockages: Vec::new() } } }
     impl Default for Cell { fn default() -> (r: Self) ensures r.name@.len() == 0, r.r#abstract is None, r.layout is None { Cell { name: String::new(), r#abstract: None, layout: None } } }
